@@ -114,6 +114,14 @@ def run(prop, tier, seed, replay=None):
             args_s += ["--only-case", str(ra["case"])]
         res, rc = core.run_monitor(exe_a, args_s, build.san_env("asan"), out_s, timeout=10800 if thorough else 1500)
         legs.append(("sched", res))
+    # (3) a waiter held before the load lock is overtaken by N first-time loads (N around powers of two)
+    if prop == "C20" and (not ra or ra.get("leg") == "overtake"):
+        out_o = os.path.join(chk.workdir, "overtake")
+        args_o = ["--mode", "overtake", "--zones", zones, "--seed", str(seed), "--tier", tier, "--workers", str(core.ncpu()), "--case-timeout", "1800"]
+        if ra.get("leg") == "overtake" and "case" in ra:
+            args_o += ["--only-case", str(ra["case"])]
+        res, rc = core.run_monitor(exe_a, args_o, build.san_env("asan"), out_o, timeout=7200 if thorough else 1500)
+        legs.append(("overtake", res))
     cov = dict(rule=RULES[prop], samples=[], evaluations=0, distinct_nontrivial=0, legs=[l for l, _ in legs])
     for leg, res in legs:
         confirmed = []
@@ -142,4 +150,6 @@ def run(prop, tier, seed, replay=None):
         else:
             if not total.stat("sched:C20.factory_invocations") or not total.stat("stress-asan:C20.factory_invocations"):
                 chk.inconclusive_because("factory log empty")
+            if not total.stat("overtake:C20.overtake_cases_realised_as_planned"):
+                chk.inconclusive_because("no overtake schedule was realised as planned")
     return chk.finish()
